@@ -200,6 +200,22 @@ pub fn history(rng: &mut Rng, c: &Corpus) -> Circuit {
         };
         ops.push(op);
     }
+    // the same element through its other coset representative, then an (in)equality gadget on the pair:
+    // x + T2 where T2 = (0,-1) represents the identity
+    if rng.chance(1, 3) {
+        let i = ix(rng);
+        ops.push(R1Op::CloneVar(i));
+        ops.push(R1Op::AddConst(LAST, ESrc::Torsion2));
+        // pool now ends with [.., clone of x, x + T2]; compare x + T2 with x (same index i as the clone's source)
+        ops.push(match rng.below(6) {
+            0 => R1Op::EnforceNe(i, LAST),
+            1 => R1Op::EnforceEq(i, LAST),
+            2 => R1Op::IsEq(LAST, i),
+            3 => R1Op::CondEnforceNe(ix(rng), i, LAST),
+            4 => R1Op::CondEnforceEq(ix(rng), LAST, i),
+            _ => R1Op::EnforceNe(LAST, i),
+        });
+    }
     let nd = rng.range(0, 2) as usize;
     let digest_steps = (0..nd).map(|_| rng.usize_below(ops.len())).collect();
     Circuit {
@@ -208,6 +224,7 @@ pub fn history(rng: &mut Rng, c: &Corpus) -> Circuit {
         enc_hints: vec![],
         digest_steps,
         reorder_seed: if rng.chance(2, 3) { rng.next_u64() | 1 } else { 0 },
+        tamper_bits: false,
     }
 }
 
@@ -253,7 +270,13 @@ pub fn offer(rng: &mut Rng, c: &Corpus) -> Offer {
         3 | 4 => Offer::PlusT4(esrc(rng, c)),
         5 | 6 => Offer::SameRatioSibling(esrc(rng, c)),
         7 => Offer::OtherCoset(esrc(rng, c)),
-        8 => Offer::T2,
+        8 => {
+            if rng.chance(1, 2) {
+                Offer::T2
+            } else {
+                Offer::Scaled(esrc(rng, c), rng.range(2, 9))
+            }
+        }
         _ => Offer::Zero00,
     }
 }
@@ -362,5 +385,6 @@ pub fn adversarial(rng: &mut Rng, c: &Corpus) -> Circuit {
         enc_hints,
         digest_steps: vec![],
         reorder_seed: 0,
+        tamper_bits: rng.chance(1, 12),
     }
 }
